@@ -1592,5 +1592,42 @@ mod verif_inflate_core {
         kani::cover!(start == 1 && x == 7, "COV:inittree.dynamic_block_both_tables");
     }
 
+    // ------------------------------------------------------------------
+    // epilogue after a starved reader: the real decompress_with_limit entered at ReadExtraBitsDistance needing 13 extra
+    // bits with 3 buffered, given ONE more byte and "more input follows". The byte goes into the bit buffer and is
+    // reported consumed (it must not be handed back: the caller would offer the same byte again, forever); the
+    // registers saved for resumption hold exactly old bits + that byte.
+    // ------------------------------------------------------------------
+    #[kani::proof]
+    #[kani::stub(update_adler32, model_adler)]
+    fn k_epilogue_starved_call_keeps_its_byte() {
+        let mut r = any_decompressor(ReadExtraBitsDistance);
+        // concrete bit count (a symbolic one leaves "enough bits?" undecided during symbolic execution, which then walks on
+        // through the whole automaton: no result in 15 min); the buffered bits themselves stay symbolic
+        r.num_bits = 3;
+        kani::assume((r.bit_buf >> 3) == 0);
+        r.num_extra = 13;
+        let (nb0, bb0, dist0, counter0) = (r.num_bits, r.bit_buf, r.dist, r.counter);
+        let inb: [u8; 1] = kani::any();
+        let mut out: [u8; OUT_CAP] = kani::any();
+        let out0 = out;
+        let outl: usize = kani::any();
+        kani::assume(outl <= OUT_CAP);
+        let out_pos: usize = kani::any();
+        let out_max: usize = kani::any();
+        let flags: u32 = kani::any();
+        kani::assume(flags & TINFL_FLAG_HAS_MORE_INPUT != 0);
+        let flat = flags & TINFL_FLAG_USING_NON_WRAPPING_OUTPUT_BUF != 0;
+        kani::assume((flat || (outl != 0 && outl & (outl - 1) == 0)) && out_pos <= outl);
+        let (st, c, w) = decompress_with_limit(&mut r, &inb[..], &mut out[..outl], out_pos, out_max, flags);
+        // (a full output window is reported first: the caller has to make room before more input can help)
+        let space = core::cmp::min(out_pos.saturating_add(out_max), outl) - out_pos;
+        assert!(st == if space == 0 { TINFLStatus::HasMoreOutput } else { TINFLStatus::NeedsMoreInput }, "OBL:epilogue.starved_with_more_input_announced_is_needs_more_input_unless_the_window_is_full [C04 C13]");
+        assert!(c == 1, "OBL:epilogue.starved_call_consumes_all_its_input_nothing_handed_back [C13 C07 C06]");
+        assert!(w == 0 && out == out0, "OBL:epilogue.starved_call_writes_nothing [C08]");
+        assert!(r.state == ReadExtraBitsDistance && r.num_bits == nb0 + 8 && r.bit_buf == bb0 | ((inb[0] as BitBuffer) << nb0) && r.dist == dist0 && r.counter == counter0 && r.num_extra == 13,
+            "OBL:epilogue.saved_registers_are_old_bits_plus_the_new_byte [C07]");
+    }
+
     //@PLAYBACK@
 }
